@@ -819,3 +819,133 @@ def k11(ctx):
             want_args = ", ".join("p%d" % i for i in range(2, b.argc + 1))
             ctx.check(inner == want_args, "wrapper-args:" + name, "the wrapper passes its arguments on in order", "EGraph::%s passes (%s) on to the kernel helper instead of (%s)" % (name, inner, want_args), where_of(b))
 RULES.append(k11)
+
+
+# ---------------------------------------------------------------------------- K12: what each kernel checks before it signs
+def _elem_source(r, depth=0):
+    """the collection an element role is drawn from: through next()/into_iter()/cloned(), index(), and positions of zip()"""
+    r = strip_role(r)
+    if not isinstance(r, tuple) or depth > 12:
+        return r
+    if r[0] == "variant":
+        return _elem_source(r[1], depth + 1)
+    if r[0] == "call" and r[1] in ("next", "into_iter", "iter", "cloned", "copied", "index", "get", "unwrap", "enumerate") and r[3]:
+        return _elem_source(r[3][0], depth + 1)
+    if r[0] == "field":
+        inner = strip_role(r[1])
+        if isinstance(inner, tuple) and inner[0] == "variant":
+            return _elem_source(inner[1], depth + 1)          # (the payload of Some(..): not a position of a zip)
+        src = _elem_source(r[1], depth + 1)
+        if isinstance(src, tuple) and src[0] == "call" and src[1] == "zip" and len(src[3]) == 2 and r[2] in ("0", "1"):
+            return _elem_source(src[3][int(r[2])], depth + 1)
+        return ("field", src, r[2])
+    return r
+
+
+@rule("K12", cfgs=EXPL, doc="each kernel signs an equation only after comparing it with its premises the right way round: symmetry against (x.r, x.l); transitivity by the three equalities renamed(x).l = goal.l, renamed(y).r = goal.r, renamed(x).r = renamed(y).l; congruence child by child against (left node's i-th child, right node's i-th child); a match of invocations is inverse(a.m) ; b.m, a match of equations unions the left and the right match")
+def k12(ctx):
+    crate = ctx.lib()
+
+    def kernel(name):
+        bs = [b for b in crate.by_name.get("check", []) if (b.impl_self or "").endswith("proof::" + name)]
+        if len(bs) != 1:
+            raise mir.AnchorMissing(name + "::check")
+        return bs[0]
+
+    def asserted(b, c):
+        """the comparison at call site c is an assertion: its false edge cannot reach a normal return"""
+        for sb in b.switch_blocks():
+            t = b.blocks[sb]["term"]
+            pl = mir.op_place(t["discr"])
+            if pl is not None and not pl["p"] and pl["l"] == c.dest["l"]:
+                false_e = [("e", sb, v) for v, _ in t["cases"] if v == "0"]
+                return bool(false_e) and not b.returns_reachable_from(false_e)
+        return False
+
+    # symmetry
+    b = kernel("SymmetryProof")
+    eqs = _aggs(b, "proof::Equation")
+    okf = any((f.get("l"), f.get("r")) == ("self.0.r", "self.0.l") for _, f in eqs)
+    ctx.check(okf, "symmetry-premise-flipped", "SymmetryProof::check compares the goal with (x.r, x.l)",
+              "SymmetryProof::check compares the goal with %s: the kernel must accept exactly the premise with its sides exchanged — compared with the premise as it is, `x.l = x.r` passes as its own symmetry and a proof of a = b is signed as a proof of b = a" % [(f.get("l"), f.get("r")) for _, f in eqs], where_of(b))
+    ms = [c for c in b.calls if c.callee and c.callee.name == "assert_match_equation" and not b.blocks[c.bb]["cleanup"]]
+    okm = any(_nrm(b, b.role_of_operand(c.args[0])) == "p2" and _nrm(b, b.role_of_operand(c.args[1])).startswith("Equation{self.0.r, self.0.l}") for c in ms)
+    ctx.check(okm, "symmetry-premise-matched", "the goal is matched against the flipped premise", "SymmetryProof::check does not match the goal against the flipped premise: %s" % [(_nrm(b, b.role_of_operand(c.args[0])), _nrm(b, b.role_of_operand(c.args[1]))[:60]) for c in ms], where_of(b))
+
+    # reflexivity
+    b = kernel("ReflexivityProof")
+    cs = [c for c in b.calls if c.callee and c.callee.name in ("eq", "ne") and len(c.args) == 2 and not b.blocks[c.bb]["cleanup"]]
+    okr = any({_nrm(b, b.role_of_operand(c.args[0])), _nrm(b, b.role_of_operand(c.args[1]))} == {"p2.l", "p2.r"} and asserted(b, c) for c in cs)
+    ctx.check(okr, "reflexivity-sides-equal", "ReflexivityProof::check asserts goal.l == goal.r", "ReflexivityProof::check signs without asserting that the two sides of the goal are the same invocation", where_of(b))
+
+    # transitivity
+    b = kernel("TransitivityProof")
+    def cls(s):
+        m = re.match(r"apply_slotmap\(self\.([01]), .*\)\.([lr])$", s)
+        if m:
+            return "R%s.%s" % (m.group(1), m.group(2))
+        m = re.match(r"p2\.([lr])$", s)
+        if m:
+            return "G." + m.group(1)
+        return None
+    got = set()
+    for c in b.calls:
+        if c.callee and c.callee.name in ("eq", "ne") and len(c.args) == 2 and not b.blocks[c.bb]["cleanup"] and "AppliedId" in (c.callee.target or ""):
+            a0, a1 = cls(_nrm(b, b.role_of_operand(c.args[0]))), cls(_nrm(b, b.role_of_operand(c.args[1])))
+            if a0 and a1 and asserted(b, c):
+                got.add(frozenset((a0, a1)))
+    want = {frozenset(("R0.l", "G.l")): "renamed(x).l == goal.l", frozenset(("R1.r", "G.r")): "renamed(y).r == goal.r", frozenset(("R0.r", "R1.l")): "renamed(x).r == renamed(y).l"}
+    for w, txt in want.items():
+        ctx.check(w in got, "transitivity-asserts:" + "=".join(sorted(w)), "TransitivityProof::check asserts " + txt,
+                  "TransitivityProof::check signs without asserting %s (asserted: %s): a chain x ; y whose middle terms differ, or whose ends are not the goal's, is accepted as a proof of the goal" % (txt, sorted("=".join(sorted(g)) for g in got)), where_of(b))
+
+    # congruence
+    b = kernel("CongruenceProof")
+    eqs = []
+    for bi, si, s in b.statements():
+        rv = s["rv"] if s["k"] == "assign" else None
+        if rv and rv["k"] == "agg" and str(rv.get("adt", "")).endswith("proof::Equation") and not b.blocks[bi]["cleanup"]:
+            f = rv["fields"]
+            eqs.append((bi, _elem_source(b.role_of_operand(rv["ops"][f.index("l")])), _elem_source(b.role_of_operand(rv["ops"][f.index("r")]))))
+    def side_of(r):
+        ms_ = {m.group(1) for m in re.finditer(r"p2\.([lr])\b", _nrm(b, r))}
+        return ms_.pop() if len(ms_) == 1 else None
+    okc = bool(eqs) and all(side_of(l) == "l" and side_of(r) == "r" for _, l, r in eqs)
+    ctx.check(okc, "congruence-child-sides", "each child goal is (i-th child of the left node, i-th child of the right node)",
+              "CongruenceProof::check builds a child goal whose sides come from %s: the left side must be a child of the goal's LEFT node and the right side a child of its RIGHT node, or a child proof of b = a is accepted for a = b" % [(side_of(l), side_of(r)) for _, l, r in eqs], where_of(b, eqs[0][0] if eqs else None))
+    ms = [c for c in b.calls if c.callee and c.callee.name == "assert_match_equation" and not b.blocks[c.bb]["cleanup"]]
+    okm = bool(ms) and all(_nrm(b, b.role_of_operand(c.args[0])).startswith("Equation{") and "self.0" in _nrm(b, _elem_source(b.role_of_operand(c.args[1]))) for c in ms)
+    ctx.check(okm, "congruence-child-matched", "every child goal is matched against the child proof at the same position", "CongruenceProof::check does not match each child goal against the corresponding child proof", where_of(b))
+    sh = [c for c in b.calls if c.callee and c.callee.name in ("eq", "ne") and len(c.args) == 2 and not b.blocks[c.bb]["cleanup"]
+          and all("nullify_app_ids(" in _nrm(b, b.role_of_operand(a)) for a in c.args)]
+    oks = any({side_of(b.role_of_operand(c.args[0])), side_of(b.role_of_operand(c.args[1]))} == {"l", "r"} and asserted(b, c) for c in sh)
+    ctx.check(oks, "congruence-same-operator", "the two nodes are asserted equal up to their children", "CongruenceProof::check no longer asserts that the two nodes agree once their children are blanked out", where_of(b))
+    lens = []
+    for sb in b.switch_blocks():
+        t = b.blocks[sb]["term"]
+        r = strip_role(b.role_of_operand(t["discr"]))
+        if isinstance(r, tuple) and r[0] == "bin" and r[1] in ("Eq", "Ne") and all("len(" in _nrm(b, x) for x in (r[2], r[3])):
+            bad_e = [("e", sb, v) for v, _ in t["cases"] if v == "0"] if r[1] == "Eq" else [("e", sb, "otherwise")]
+            if bad_e and not b.returns_reachable_from(bad_e):
+                lens.append(sb)
+    ctx.check(len(lens) >= 2, "congruence-arity", "both nodes have as many children as there are child proofs (zip would silently truncate)", "CongruenceProof::check no longer asserts the child counts: zip() truncates to the shortest list and the remaining children go unproved", where_of(b))
+
+    # matching
+    ma = [x for x in crate.by_name.get("match_app_id", []) if x.kind == "Fn"]
+    if len(ma) != 1:
+        raise mir.AnchorMissing("explain::proof::match_app_id")
+    b = ma[0]
+    ret = _nrm(b, b.role_of_local(0))
+    ctx.check(ret == "compose(inverse(p1.m), p2.m)", "match-app-id", "match_app_id(a, b) = inverse(a.m) ; b.m", "match_app_id(a, b) returns %s: the renaming with a.apply(theta) = b is inverse(a.m).compose(b.m)" % ret[:80], where_of(b))
+    me = [x for x in crate.by_name.get("assert_match_equation", []) if x.kind == "Fn"]
+    if len(me) != 1:
+        raise mir.AnchorMissing("explain::proof::assert_match_equation")
+    b = me[0]
+    tu = [c for c in b.calls if c.callee and c.callee.name == "try_union" and not b.blocks[c.bb]["cleanup"]]
+    okt = any({_nrm(b, b.role_of_operand(c.args[0])), _nrm(b, b.role_of_operand(c.args[1]))} == {"match_app_id(p1.l, p2.l)", "match_app_id(p1.r, p2.r)"} for c in tu)
+    ctx.check(okt, "match-equation", "assert_match_equation(a, b) unions match(a.l, b.l) with match(a.r, b.r)", "assert_match_equation(a, b) combines %s" % [(_nrm(b, b.role_of_operand(c.args[0]))[:40], _nrm(b, b.role_of_operand(c.args[1]))[:40]) for c in tu], where_of(b))
+    ret = _nrm(b, b.role_of_local(0))
+    ctx.check("try_union(" in ret and ("unwrap" in ret or "expect" in ret), "match-equation-conflict-panics", "a conflict between the two matches is fatal", "assert_match_equation no longer fails when the left and the right match disagree: %s" % ret[:80], where_of(b))
+
+
+RULES.append(k12)
